@@ -127,6 +127,7 @@ func C01(p *core.Prog, rep *core.Report) {
 	staleActive(p, rep)
 	poolReset(p, rep)
 	rt2(p, rep)
+	ro1Rotation(p, rep)
 	rep.Assumptions = append(rep.Assumptions, "two loads of one location (same field of the same object / same slice element) inside one function see the same value",
 		"dependency code (index containers) stores and returns the position it is given (checked separately for the three implementations under C14/C10)")
 	rep.NotCovered = append(rep.NotCovered, "byte equality of values for all lengths; chunk arithmetic (partially covered by C11's agreement rules); every operation sequence / configuration")
